@@ -144,6 +144,14 @@ def gen_pull(rng):
         if rng.random() < 0.5:
             links.append({"src": rng.randrange(nprod), "out": 0, "dst": p2, "ads": []})
         last = p2
+    if rng.random() < 0.3:
+        # a producer is itself a consumer: A -> B -> P -> C.  When the scheduler descends from P's frame into B, B's
+        # inputs have to be judged by B's own next pull, not by the time the consumer behind P asked for
+        b = rng.randrange(nprod)
+        comps[b]["steps"] = [rng.choice([2, 3, 4, 5])]
+        up = len(comps)
+        comps.append({"kind": "time", "start": 0, "steps": [rng.choice([1, 1, 2, 3])]})
+        links.append({"src": up, "out": 0, "dst": b, "ads": rng.choice([[], [], [["scale"]], [["lin"]]])})
     cons = len(comps)
     steps = [rng.choice([1, 2, 3, 4, 5])]
     if rng.random() < 0.3:
@@ -159,6 +167,12 @@ def gen_pull(rng):
         # possibly with a different delay than the first path
         comps[last]["nout"] = 2
         links.append({"src": last, "out": 1, "dst": cons, "ads": rng.choice([[], [], dly()])})
+    elif r < 0.55 and (r >= 0.4 or last == p1):
+        # the consumer reads the *same* output twice: first through a delay, then directly (in this order the
+        # requests reaching the component's sources stay monotone); the scheduler must keep the larger of the two
+        # times it needs from that output
+        links[-1]["ads"] = dly()
+        links.append({"src": last, "out": 0, "dst": cons, "ads": rng.choice([[], [], [["scale"]]])})
     elif r < 0.4 and last != p1:
         # diamond: the consumer also reads the first pull-based component directly
         links.append({"src": p1, "out": 0, "dst": cons, "ads": []})
